@@ -46,6 +46,9 @@ def generate(rng, tier):
     dirs = gen.tree_dirs(tree)
     rng.shuffle(dirs)
     state["nested"] = sorted(dirs[: rng.randint(1, min(4, len(dirs)))])
+    if "A/B/C" in tree and rng.random() < 0.5:
+        # a full chain of four histories: root > A > A/B > A/B/C
+        state["nested"] = sorted(set(state["nested"]) | {"A", "A/B", "A/B/C"})
     pending = list(state["nested"])
     rng.shuffle(pending)
     ops = []
